@@ -265,7 +265,9 @@ def tp (ts : List String) : String :=
       match r.1 with
       | .ok P _ =>
         (match transportCheck via addr P with
-         | .ok Q => "D=" ++ okWord ++ peerName Q
+         | .ok Q => "D=" ++ okWord ++ peerName Q ++ " ep=" ++ (match endpointAddress via addr with
+            | some [.host .ip4, .tcp] => "ip4" | some [.host .ip6, .tcp] => "ip6" | some [.host .dns, .tcp] => "dns"
+            | some [.host .dns4, .tcp] => "dns4" | some [.host .dns6, .tcp] => "dns6" | _ => "other")
          | .error e => "D=" ++ errWord ++ errClass false e)
       | other => "D=" ++ errWord ++ showRes [] other
   | _, _, _, _, _ => "bad-op"
